@@ -188,6 +188,105 @@ func TestC01(t *testing.T) {
 		}
 		synctest.Test(t, func(t *testing.T) { c01Run(t, run, sc) })
 	}
+	// redeploys that name the targets the service is already running on
+	for k := 0; k < run.N(48, 1200); k++ {
+		rng := run.Rand(n + k)
+		sc := c01Same{Idx: k, NT: 1 + rng.IntN(2), Rollout: rng.IntN(3) == 0, BadFor: pick(rng, []int{-1, -1, 0, 1, 2, 4}), DeployTO: pick(rng, []time.Duration{1500 * time.Millisecond, 3500 * time.Millisecond})}
+		if !run.Mine(n+k, sc) {
+			continue
+		}
+		synctest.Test(t, func(t *testing.T) { c01RunSame(t, run, sc) })
+	}
+}
+
+// c01Same: the service runs on targets T (all healthy). At 2.3s (between two probes of the running
+// deployment, which therefore still has them in rotation) the targets start failing their probes
+// (forever: BadFor -1, or for that many probes) and a deploy (rollout deploy) naming exactly T is
+// issued. Whatever the proxy knows about the targets from before, the command may only succeed once
+// every target of the *new* deployment has passed a probe, i.e. answered one that was sent after the
+// command was issued.
+type c01Same struct {
+	Idx      int           `json:"idx"`
+	NT       int           `json:"n_targets"`
+	Rollout  bool          `json:"rollout_slot"`
+	BadFor   int           `json:"failing_probes_after_issue"` // -1: forever
+	DeployTO time.Duration `json:"deploy_timeout"`
+}
+
+func c01RunSame(t *testing.T, run *Run, sc c01Same) {
+	w := NewWorld(t, WorldOpt{})
+	defer w.Close()
+	run.Eval()
+	to := DefTO
+	to.HealthCheckConfig.Interval = c01Interval
+	to.HealthCheckConfig.Timeout = c01ProbeTO
+	const svc = "svc"
+	tBad := 2*time.Second + 300*time.Millisecond // between two probes of the running deployment
+	tIssue := tBad + 50*time.Millisecond
+	var names []string
+	for i := 0; i < sc.NT; i++ {
+		name := fmt.Sprintf("same%d-t%d:80", sc.Idx%7, i)
+		names = append(names, name)
+		bad := 0
+		w.AddTarget(name, func(n int, at time.Duration) ProbeAct {
+			if at < tBad {
+				return ProbeAct{Status: 200}
+			}
+			bad++
+			if sc.BadFor < 0 || bad <= sc.BadFor*2 { // two load balancers probe it while the deploy waits
+				return ProbeAct{Status: 500}
+			}
+			return ProbeAct{Status: 200}
+		})
+	}
+	w.AddTarget("base-t0:80", nil)
+	active := names
+	if sc.Rollout {
+		active = []string{"base-t0:80"}
+	}
+	if c := w.Deploy(svc, active, DefSO, to, 5*time.Second, time.Second); c.Err != "" {
+		run.Inconclusive("setup: %s", c.Err)
+		return
+	}
+	if sc.Rollout {
+		if c := w.RolloutDeploy(svc, names, 5*time.Second, time.Second); c.Err != "" {
+			run.Inconclusive("setup: %s", c.Err)
+			return
+		}
+		w.RolloutSet(svc, 100, nil)
+	}
+	w.SleepUntil(tIssue)
+	var cmd *CmdRec
+	if sc.Rollout {
+		cmd = w.RolloutDeploy(svc, names, sc.DeployTO, time.Second)
+	} else {
+		cmd = w.Deploy(svc, names, DefSO, to, sc.DeployTO, time.Second)
+	}
+	time.Sleep(3 * c01Interval)
+	if cmd.Panic != "" {
+		run.Violate("panic", "command panicked: "+cmd.Panic, sc, func() []string { return w.Trace(200) })
+		return
+	}
+	outcome := "failed"
+	if cmd.Err == "" {
+		outcome = "ok"
+		for _, name := range names {
+			passed := false
+			for _, p := range w.Target(name).ProbeLog() {
+				if p.Start >= cmd.Issue && p.Passed(c01ProbeTO) && p.End <= cmd.Ret+Eps {
+					passed = true
+				}
+			}
+			if !passed {
+				run.Violate("success-without-a-passed-probe:same-targets", fmt.Sprintf("redeploy onto the targets the service already had (issued %v, returned ok at %v): %s answered no probe successfully between issue and return", cmd.Issue, cmd.Ret, name), sc, func() []string { return w.Trace(300) })
+				return
+			}
+		}
+	} else if sc.BadFor >= 0 && time.Duration(sc.BadFor+1)*c01Interval+Eps < sc.DeployTO {
+		run.Violate("failed-although-targets-recovered:same-targets", fmt.Sprintf("redeploy onto the same targets failed (%s) although every target passes its probes again from probe %d on and the deploy timeout is %v", cmd.Err, sc.BadFor+1, sc.DeployTO), sc, func() []string { return w.Trace(300) })
+		return
+	}
+	run.Class(fmt.Sprintf("same-targets|n%d|rollout=%v|bad=%d|to=%v|%s", sc.NT, sc.Rollout, sc.BadFor, sc.DeployTO, outcome))
 }
 
 func c01Run(t *testing.T, run *Run, sc c01Scenario) {
